@@ -222,7 +222,12 @@ func visitInstr(fr *frame, instr ssa.Instruction) continuation {
 		fr.env[instr] = fr.get(instr.X) // (can't fail)
 
 	case *ssa.Convert:
-		fr.env[instr] = conv(instr.Type(), instr.X.Type(), fr.get(instr.X))
+		x := fr.get(instr.X)
+		if _, isSlice := x.([]value); isSlice && hasSym(x, 0) {
+			// []byte/[]rune with symbolic elements converted to a string: concretise
+			x = i.concretizeDeep(x, instr.X.Type(), fr.pos(instr))
+		}
+		fr.env[instr] = conv(instr.Type(), instr.X.Type(), x)
 
 	case *ssa.SliceToArrayPointer:
 		fr.env[instr] = sliceToArrayPointer(instr.Type(), instr.X.Type(), fr.get(instr.X))
